@@ -90,6 +90,13 @@ func main() {
 		r.Read(oids[i][:])
 	}
 	sort.Slice(oids, func(i, j int) bool { return string(oids[i][:]) < string(oids[j][:]) })
+	// boundary ids: the largest id is 0xFF..FF (cursor increment wraps), the smallest 0x00..01; the order is kept
+	if len(oids) > 1 {
+		for k := range oids[0] {
+			oids[0][k], oids[len(oids)-1][k] = 0, 0xFF
+		}
+		oids[0][len(oids[0])-1] = 1
+	}
 	cnrOf := func(i int) cid.ID { // first half in container 1, second half in container 2
 		if i <= (no+1)/2 {
 			return cids[0]
